@@ -605,6 +605,9 @@ class TorConfig:
         self.unsaved = OrderedDict()
         '''Configuration that has been changed since last save().'''
 
+        self._saving = []
+        '''What each save() that Tor has not answered yet is sending.'''
+
         self.parsers = {}
         '''Instances of the parser classes, subclasses of TorConfigType'''
 
@@ -890,11 +893,16 @@ class TorConfig:
                     v = [v]
                 v = _ListWrapper(
                     v, functools.partial(self.mark_unsaved, real_name))
-                if real_name in self.unsaved and \
-                   self.unsaved[real_name] is self.config.get(real_name):
+                pending = self.unsaved.get(real_name, None)
+                if pending is not None and \
+                   pending is self.config.get(real_name) and \
+                   not any(pending is sent for saved in self._saving
+                           for _, sent, _ in saved):
                     # in-place edits of the list Tor no longer has: left
                     # pending, they would shadow every edit of the new
-                    # list (and be sent instead of it)
+                    # list (and be sent instead of it). (While a save()
+                    # of that list is unanswered this is Tor telling us
+                    # about our own change; _save_completed decides.)
                     del self.unsaved[real_name]
             elif real_name in self.parsers:
                 if v == DEFAULT_VALUE:
@@ -1027,7 +1035,13 @@ class TorConfig:
                 (k, v, list(v) if isinstance(v, list) else v)
                 for k, v in self.unsaved.items()
             ]
+            self._saving.append(saved)
+
+            def answered(arg):
+                self._saving.remove(saved)
+                return arg
             d = self.protocol.set_conf(*args)
+            d.addBoth(answered)
             d.addCallback(self._save_completed, saved)
             return d
 
